@@ -383,8 +383,10 @@ def classify_compile(out, src=""):
         return "compile/enum-label-unset"
     if re.search(r"redeclared|already declared|duplicate (field|method|case)", out) and not re.search(r"cannot use", out):
         return "compile/redeclared"
-    if re.search(r"^\t\w+_\t", src, re.M):
-        return "compile/uniquified-field-name"      # a field renamed X_ by MakeNameUnique is still referred to as X
+    # a field renamed X_ by MakeNameUnique is still referred to as X: the compiler's message names X
+    # (only then: a package that merely HAS such a field and fails for another reason is not this finding)
+    if any(re.search(r"\b%s\b" % re.escape(n), out) for n in set(re.findall(r"^\t(\w+)_\t", src, re.M))):
+        return "compile/uniquified-field-name"
     if re.search(r"field and method with the same name", out):
         return "compile/field-method-clash"
     if re.search(r"redeclared|already declared|duplicate (field|method|case)", out):
